@@ -380,7 +380,7 @@ def rule_iso(ctx) -> None:
     for n in refl_nodes:
         # on the t4-enabled branch the apply record precedes; on the bypass branch there is no apply record at all
         p = cfg.path([t for c in t4flag for t, l in c.succ if l == "T"], lambda x: x is n, avoid=lambda x: x in applies) if t4flag else [n]
-        ctx.check(bool(t4flag) and p is None, "C19.ISO", f"{rt.qual}/after-apply-record@{n.lineno}", rt.loc(n.ast) if n.ast is not None else rt.loc(),
+        ctx.check(bool(t4flag) and p is None, "C19.ISO", ctx.okey(f"{rt.qual}/after-apply-record"), rt.loc(n.ast) if n.ast is not None else rt.loc(),
                   "with T4 on, reflection is reached only after the apply.jsonl record was appended",
                   "a reflection step is reachable before the apply record of the turn", ctx.path_witness(rt, p))
     first = [n for n in cfg.nodes if any(call_tail(c) == "_run_reflection_if_enabled" for c in node_calls(n))]
